@@ -208,7 +208,7 @@ PROPS = {
         "assumptions": ["the primary container has an explicit command (otherwise the webhook asks the image registry)", "ownership graphs are acyclic (the API server guarantees it via UIDs)"],
     },
     "C14": {
-        "prop_files": ["Katib/Props/C14.lean", "Katib/Props/C14Template.lean"],
+        "prop_files": ["Katib/Props/C14.lean", "Katib/Props/C14Template.lean", "Katib/Props/C14Guards.lean"],
         "n": {"quick": 6000, "thorough": 300000},
         "rule": "generated Experiments before defaulting (names incl. dots, upper case, trailing hyphen/newline, 40/41 characters; budgets nil/-1..6, and clean experiments with exactly one budget field off; objective, algorithm, early stopping, "
                 "resume policy valid/invalid/nil; 0-3 parameters of every type with valid, empty, mixed and duplicated spaces and names; NAS config; inline Job/TFJob/CRD templates and "
@@ -216,14 +216,14 @@ PROPS = {
                 "unconvertible Job fields; collector kinds x nil/partial sources, ports, filters) plus one random field of the spec zeroed by reflection, x three katib-config contents; run "
                 "through the real SetDefault + ValidateExperiment (recover) and, as JSON, through the real admission handlers ExperimentDefaulter.Handle (patch applied, must equal the directly defaulted object) and ExperimentValidator.Handle (decision must coincide), and for admitted objects through util.GetSuggestion*Name and GetRunSpecWithHyperParameters on two feasible "
                 "assignments; every sixth case checks the naming rule / the DNS label predicates on random strings against the validator and k8s.io/apimachinery validation",
-        "trusted": ["engines as oracle bits: regexp, JSON/YAML conversion of the dry-run template, batch/v1 Job conversion (asked from the real validator on a clean experiment), katib-config "
+        "trusted": ["the go/ast path-condition translator (kvh extract guards / pred / skip; what it is trusted for: DESIGN.md section 2)", "engines as oracle bits: regexp, JSON/YAML conversion of the dry-run template, batch/v1 Job conversion (asked from the real validator on a clean experiment), katib-config "
                     "lookups, strconv.Atoi", "the harness's own dry-run substitution (compared with the model's dry-run text on every case)", "fake client as API server"],
         "modelled": ["Experiment.SetDefault (parallel count, resume policy, template conditions, collector sources, distributions) and DefaultValidator.ValidateExperiment for creation "
                      "(all validate* helpers; nil dereferences as the outcome crash) as Katib.Adm.*; name rules on character lists; applyParameters through Katib.Tpl.placeholders"],
         "level_text": "partial: Lean theorems C14_no_crash (validation of a defaulted Experiment never dereferences nil, any content, any engine answers), C14_pointers, C14_budget, C14_names, "
                       "C14_trial_names for every Experiment / name; C14_template_partial (admitted + every parameter consumed + every metadata reference resolvable => for every assignment of "
                       "values the generator's placeholder map is built without error: links the admission model to the C02 generator model); C14_algorithm_name_counterexample and the "
-                      "instantiate-battery oracle witness four known findings; exact differential run "
+                      "instantiate-battery oracle witness four known findings; C14_name_error_is_source / C14_budget_errors_are_source / C14_objective_errors_are_source / C14_algorithm_errors_are_source / C14_early_stopping_errors_are_source: the model raises the name error, the five budget errors and the objective, algorithm and early-stopping errors under exactly the path conditions regenerated from ValidateExperiment, validateObjective, validateAlgorithm and validateEarlyStopping on this run; exact differential run "
                       "of the real webhooks (error paths in order) against the model",
         "level_note": "partial: that the substituted template text parses (JSON/YAML engine) is decided per case by running the real generator (oracle), not by a theorem; objective metric "
                       "strategies and NAS operations are not modelled; updates (oldInst) are C15",
